@@ -2,7 +2,7 @@
 from harness import exchange_check as xc
 
 TRUSTED_EXTRA = xc.TRUSTED_EXTRA
-PLAN = [("compete", "small", 70, 1500), ('liquidity', 'medium', 70, 1800), ('limitpartial', 'medium', 50, 1200), ('mixed', 'small', 40, 800)]
+PLAN = [("compete", "small", 70, 1500), ('liquidity', 'medium', 70, 1800), ('limitpartial', 'medium', 50, 1200), ('mixed', 'small', 40, 800), ('reconfig', 'small', 30, 400)]
 
 
 def run(chk):
